@@ -61,6 +61,11 @@ CHECKS = {
         technique="TLA+ model of the worker pool (FullSync.tla) model-checked by TLC over all entry sequences and interleavings; entry sequences from the model's initial states concretised and run through the real syncRDBFile/restoreRDBFile against a model Redis whose command processing is scheduled (random / starve-one-connection), with the per-connection command log and final keyspace validated by TLC (FsTrace.tla)",
         text="TLC proves right content, exactly-once, all-processed, failure-reported and termination for every interleaving of 2-3 workers over every sequence of <= 3-4 entries (plain, filtered, failing, two-chunk hash; with and without target.db); the real worker pools are bound by trace validation: every command's database, one writer and at most one successful RESTORE per key, every unfiltered key equal to the source value (independent decoder), failures reported, Parallel 1..8 under adversarial scheduling of the target.",
         note="Entry-to-worker assignment is the Go runtime's; the scheduler orders only the target side. One open finding (chunk/rewrite race) is listed in known_findings.json."),
+    "C06": dict(
+        level="model_checking", design="DESIGN.md 4/C06",
+        technique="TLA+ definitions of the filter predicates and per-path reachability (Filter.tla); cross-path consistency theorems model-checked by TLC over all configurations of a pool (FilterMC); the configuration x key x db matrix replayed through the real full-sync, restore and incremental paths with every target command and the final keyspace validated by TLC against Filter.tla (FsTrace.tla)",
+        text="TLC checks the consistency theorems on 24 300 (configuration, key, db) cases; the binding replays the matrix {sync, restore, incremental} x {no / white / black key list over subsets of {a,ab,b}} x 5 db lists x slot list x filter.lua with 9 keys (empty, prefix-related, checkpoint, hash-tagged) in 3 dbs plus a Lua script against the model Redis and lets TLC decide for every observed command and final key whether Filter.tla allows it.",
+        note="Rump path: same operators, exercised by C16. Incremental path uses SET / SCRIPT LOAD / opinfo; target.db combined with db filters is covered by C03's targetdb-dbfilter family."),
 }
 
 NOT_YET = "check not built yet in this session (work in progress; see DESIGN.md section 7 for the order)"
